@@ -24,13 +24,13 @@ static inline std::string ser_opd(const WOpd &o) {
   return b;
 }
 static inline std::string serialize(const LineCase &c) {
-  std::string s = std::to_string(c.combo) + "|" + c.it.mn + "|" + c.it.form + "|" + std::to_string(c.it.size) + "|" + c.it.cls + "|" + std::to_string(c.it.brkw) + "|" + (c.it.far ? "1" : "0");
+  std::string s = std::to_string(c.combo) + "|" + c.it.mn + "|" + c.it.form + "|" + std::to_string(c.it.size) + "|" + c.it.cls + "|" + std::to_string(c.it.brkw + (c.it.kw_imm ? 10 : 0)) + "|" + (c.it.far ? "1" : "0");
   for (auto &o : c.it.ops) s += "|" + ser_opd(o);
   return s;
 }
 static inline bool parse_case(const std::string &s, LineCase &c) {
   auto f = split(s, '|'); if (f.size() < 7) return false;
-  c.combo = atoi(f[0].c_str()); c.it.mn = f[1]; c.it.form = f[2]; c.it.size = atoi(f[3].c_str()); c.it.cls = f[4]; c.it.brkw = atoi(f[5].c_str()); c.it.far = f[6] == "1";
+  c.combo = atoi(f[0].c_str()); c.it.mn = f[1]; c.it.form = f[2]; c.it.size = atoi(f[3].c_str()); c.it.cls = f[4]; c.it.brkw = atoi(f[5].c_str()) % 10; c.it.kw_imm = atoi(f[5].c_str()) >= 10; c.it.far = f[6] == "1";
   c.it.ops.clear();
   for (size_t i = 7; i < f.size(); i++) {
     auto g = split(f[i], ':'); if (g.empty()) return false; WOpd o;
@@ -134,7 +134,7 @@ static inline std::vector<std::string> case_tags(const LineCase &c) {
   }
   if (anyext) t.push_back("reg:ext"); if (anyhigh) t.push_back("reg:high8");
   if (it.brkw) t.push_back(it.brkw == 1 ? "kw:short" : "kw:long");
-  if (it.far) t.push_back("kw:far");
+  if (it.far) t.push_back("kw:far"); if (it.kw_imm) t.push_back("kw:on-immediate");
   Opts o = combo_opts(c.combo); static const char *N[3] = {"STRICT", "NASM", "SMART"};
   t.push_back(std::string("opt:mov=") + N[o.mov]); t.push_back(std::string("opt:swap=") + N[o.swap]); t.push_back(std::string("opt:nobase=") + N[o.nobase]);
   return t;
